@@ -142,7 +142,7 @@ fn nucleo_candidates(n: &NucleoScript) -> Vec<NucleoScript> {
                 *k /= 2;
                 true
             }
-            UiOp::Reparse { text, .. } => match shorter(text) {
+            UiOp::Reparse { text, .. } | UiOp::ReparseOpts { text, .. } => match shorter(text) {
                 Some(t) => {
                     *text = t;
                     true
